@@ -5,7 +5,7 @@
 # /repo and /verif/evidence stay untouched.  Prints CAUGHT / MISSED per seed.
 export GOFLAGS=-mod=mod GOPROXY=off GOSUMDB=off GOTOOLCHAIN=local
 tier="${1:-quick}"; jobs="${2:-3}"
-cd /verif || exit 2
+cd "$(dirname "$(realpath "$0")")/.." || exit 2   # the tree this script belongs to (a snapshot under vp run)
 one() {
   d="$(realpath "$1")"; tier="$2"; name="$(basename "$d")"; id="${name%%-*}"
   # a change that another property's check reports names it in meta.json
